@@ -111,6 +111,127 @@ pub open spec fn stream_bytes(data: Seq<u8>, size: int, fat: Seq<u32>, start: u3
     if 0 < len < raw.len() { raw.take(len) } else { raw }
 }
 
+/// follow a successor function from `s` until `stop`; None: invalid node met or fuel exhausted
+pub open spec fn follow(nxt: spec_fn(u32) -> u32, valid: spec_fn(u32) -> bool, stop: spec_fn(u32) -> bool, s: u32, fuel: nat) -> Option<Seq<u32>>
+    decreases fuel
+{
+    if stop(s) { Some(Seq::<u32>::empty()) }
+    else if fuel == 0 || !valid(s) { None }
+    else {
+        match follow(nxt, valid, stop, nxt(s), (fuel - 1) as nat) {
+            Some(t) => Some(seq![s] + t),
+            None => None,
+        }
+    }
+}
+proof fn lemma_follow_fuel(nxt: spec_fn(u32) -> u32, valid: spec_fn(u32) -> bool, stop: spec_fn(u32) -> bool, s: u32, f1: nat, f2: nat)
+    requires follow(nxt, valid, stop, s, f1) is Some, follow(nxt, valid, stop, s, f2) is Some,
+    ensures follow(nxt, valid, stop, s, f1) == follow(nxt, valid, stop, s, f2),
+    decreases f1,
+{
+    if !stop(s) { lemma_follow_fuel(nxt, valid, stop, nxt(s), (f1 - 1) as nat, (f2 - 1) as nat); }
+}
+/// the path from the j-th node is the j-th suffix; all nodes are valid
+proof fn lemma_follow_suffix(nxt: spec_fn(u32) -> u32, valid: spec_fn(u32) -> bool, stop: spec_fn(u32) -> bool, s: u32, f: nat, j: int)
+    requires follow(nxt, valid, stop, s, f) is Some, 0 <= j < follow(nxt, valid, stop, s, f).unwrap().len(),
+    ensures
+        j <= f,
+        follow(nxt, valid, stop, follow(nxt, valid, stop, s, f).unwrap()[j], (f - j) as nat) == Some(follow(nxt, valid, stop, s, f).unwrap().skip(j)),
+        valid(follow(nxt, valid, stop, s, f).unwrap()[j]),
+    decreases j,
+{
+    let ids = follow(nxt, valid, stop, s, f).unwrap();
+    let t = follow(nxt, valid, stop, nxt(s), (f - 1) as nat).unwrap();
+    assert(ids == seq![s] + t);
+    if j == 0 {
+        assert(ids.skip(0) =~= ids);
+    } else {
+        lemma_follow_suffix(nxt, valid, stop, nxt(s), (f - 1) as nat, j - 1);
+        assert(ids[j] == t[j - 1]);
+        assert(ids.skip(j) =~= t.skip(j - 1));
+    }
+}
+proof fn lemma_follow_distinct(nxt: spec_fn(u32) -> u32, valid: spec_fn(u32) -> bool, stop: spec_fn(u32) -> bool, s: u32, f: nat)
+    requires follow(nxt, valid, stop, s, f) is Some,
+    ensures follow(nxt, valid, stop, s, f).unwrap().no_duplicates(),
+{
+    let ids = follow(nxt, valid, stop, s, f).unwrap();
+    assert forall|i: int, j: int| 0 <= i < ids.len() && 0 <= j < ids.len() && i != j implies ids[i] != ids[j] by {
+        if ids[i] == ids[j] {
+            lemma_follow_suffix(nxt, valid, stop, s, f, i);
+            lemma_follow_suffix(nxt, valid, stop, s, f, j);
+            lemma_follow_fuel(nxt, valid, stop, ids[i], (f - i) as nat, (f - j) as nat);
+            assert(ids.skip(i).len() == ids.skip(j).len());
+        }
+    }
+}
+/// pigeonhole: distinct values below n are at most n many
+proof fn lemma_pigeon(ids: Seq<u32>, n: int)
+    requires n >= 0, ids.no_duplicates(), forall|i: int| 0 <= i < ids.len() ==> (#[trigger] ids[i] as int) < n,
+    ensures ids.len() <= n,
+    decreases n,
+{
+    if ids.len() == 0 {
+    } else if n == 0 {
+        assert((ids[0] as int) < 0);
+    } else if exists|k: int| 0 <= k < ids.len() && ids[k] as int == n - 1 {
+        let k = choose|k: int| 0 <= k < ids.len() && ids[k] as int == n - 1;
+        let r = ids.subrange(0, k) + ids.subrange(k + 1, ids.len() as int);
+        assert forall|i: int| 0 <= i < r.len() implies (#[trigger] r[i] as int) < n - 1 by {
+            let oi = if i < k { i } else { i + 1 };
+            assert(r[i] == ids[oi]);
+            assert(ids[oi] != ids[k]);
+        }
+        assert forall|i: int, j: int| 0 <= i < r.len() && 0 <= j < r.len() && i != j implies r[i] != r[j] by {
+            let oi = if i < k { i } else { i + 1 };
+            let oj = if j < k { j } else { j + 1 };
+            assert(r[i] == ids[oi] && r[j] == ids[oj]);
+        }
+        lemma_pigeon(r, n - 1);
+    } else {
+        assert forall|i: int| 0 <= i < ids.len() implies (#[trigger] ids[i] as int) < n - 1 by { }
+        lemma_pigeon(ids, n - 1);
+    }
+}
+
+// ---- FAT chains as instances of `follow` (for the length bound that makes the chain walk terminate)
+pub open spec fn fat_nxt(fat: Seq<u32>) -> spec_fn(u32) -> u32 { |x: u32| fat[x as int] }
+pub open spec fn fat_valid(fat: Seq<u32>) -> spec_fn(u32) -> bool { |x: u32| (x as int) < fat.len() && x <= 0xFFFF_FFFAu32 }
+pub open spec fn fat_stop() -> spec_fn(u32) -> bool { |x: u32| x == 0xFFFF_FFFEu32 }
+proof fn lemma_chain_is_follow(fat: Seq<u32>, s: u32, f: nat)
+    ensures fat_chain(fat, s, f) == follow(fat_nxt(fat), fat_valid(fat), fat_stop(), s, f),
+    decreases f,
+{
+    if s != 0xFFFF_FFFEu32 && f > 0 && (s as int) < fat.len() && s <= 0xFFFF_FFFAu32 {
+        lemma_chain_is_follow(fat, fat[s as int], (f - 1) as nat);
+    }
+}
+/// [MS-CFB]: a well-formed chain visits every FAT entry at most once, so it has at most fat.len() sectors
+proof fn lemma_chain_len(fat: Seq<u32>, s: u32, f: nat)
+    requires fat_chain(fat, s, f) is Some,
+    ensures fat_chain(fat, s, f).unwrap().len() <= fat.len(),
+{
+    lemma_chain_is_follow(fat, s, f);
+    let ids = fat_chain(fat, s, f).unwrap();
+    lemma_follow_distinct(fat_nxt(fat), fat_valid(fat), fat_stop(), s, f);
+    assert forall|i: int| 0 <= i < ids.len() implies (#[trigger] ids[i] as int) < fat.len() by {
+        lemma_follow_suffix(fat_nxt(fat), fat_valid(fat), fat_stop(), s, f, i);
+    }
+    lemma_pigeon(ids, fat.len() as int);
+}
+/// the number of sectors is a sufficient fuel
+proof fn lemma_chain_min(fat: Seq<u32>, s: u32, f: nat)
+    requires fat_chain(fat, s, f) is Some,
+    ensures fat_chain(fat, s, fat_chain(fat, s, f).unwrap().len()) == fat_chain(fat, s, f),
+    decreases f,
+{
+    if s != 0xFFFF_FFFEu32 {
+        lemma_chain_min(fat, fat[s as int], (f - 1) as nat);
+        let t = fat_chain(fat, fat[s as int], (f - 1) as nat).unwrap();
+        assert((seq![s] + t).len() == t.len() + 1);
+    }
+}
+
 /// a well-formed chain does not depend on the fuel
 proof fn lemma_chain_fuel(fat: Seq<u32>, start: u32, f1: nat, f2: nat)
     requires fat_chain(fat, start, f1) is Some, fat_chain(fat, start, f2) is Some,
@@ -157,8 +278,12 @@ impl Sectors {
         }),
         //# C13.get_conservation
         sector_in(old(self).total(old(r)), old(self).sz(), id as int) && res is Ok ==> final(self).total(final(r)) == old(self).total(old(r)),
-        //# C13,C20.get_err_is_io_failure
-        (res matches Err(e) ==> e is Io && (*final(r)).io_failed()) && (res is Ok ==> (*final(r)).io_failed() == (*old(r)).io_failed()),
+        //# C13,C20.get_err_is_io_failure_or_beyond_eof
+        (res matches Err(e) ==> (e is Io && (*final(r)).io_failed())
+            || (e is Invalid && id as int * old(self).sz() > old(self).total(old(r)).len() && (*final(r)).io_failed() == (*old(r)).io_failed()))
+            && (res is Ok ==> (*final(r)).io_failed() == (*old(r)).io_failed()),
+        //# C06.get_beyond_eof_is_err
+        id as int * old(self).sz() > old(self).total(old(r)).len() ==> res is Err,
         //# C13.get_short_at_eof
         !sector_in(old(self).total(old(r)), old(self).sz(), id as int) && id as int * old(self).sz() <= old(self).total(old(r)).len() ==> (match res {
             Ok(s) => s@ == old(self).total(old(r)).skip(id as int * old(self).sz()),
@@ -195,7 +320,7 @@ impl Sectors {
                     assert(self.data@.take(len + n) + (*r).rem() =~= (pre.take(len as int) + rem0));
                     assert(self.data@.take(data0.len() as int) =~= pre.take(data0.len() as int));
                 }
-//@@ before /return Ok\(&self/
+//@@ after /if read == 0 \{/
                     proof {
                         assert((*r).rem().len() == 0);
                         assert(self.data@.take(len as int) + (*r).rem() =~= self.data@.take(len as int));
@@ -204,6 +329,7 @@ impl Sectors {
                         if start <= len {
                             assert(self.data@.subrange(start as int, len as int) =~= total.skip(start as int));
                         }
+                        assert(start as int == id as int * self.size as int);
                         assert(total == old(self).total(old(r)));
                         assert(self.size as int == old(self).sz());
                         assert(len < end);
@@ -212,6 +338,7 @@ impl Sectors {
 //@@ before /Ok\(&self/#1of2
         proof {
             assert((id as int + 1) * (self.size as int) == id as int * (self.size as int) + self.size as int) by (nonlinear_arith);
+            assert(start as int == id as int * self.size as int);
             if end as int <= data0.len() {
                 assert(self.data@ == data0);
                 assert(total == data0 + (*r).rem());
@@ -240,8 +367,8 @@ map_err(|e| -> (ce: CfbError) ensures ce is Io { CfbError::Io(e) })
             Ok(v) => v@ == stream_bytes(old(self).total(old(r)), old(self).sz(), fats@, sector_id, len as int, fuel),
             Err(e) => e is Io,
         }),
-        //# C13,C20.chain_err_is_io_failure
-        (res matches Err(e) ==> e is Io && (*final(r)).io_failed()) && (res is Ok ==> (*final(r)).io_failed() == (*old(r)).io_failed()),
+        //# C13,C20.chain_io_error_flag
+        (res matches Err(CfbError::Io(_)) ==> (*final(r)).io_failed()) && (res is Ok ==> (*final(r)).io_failed() == (*old(r)).io_failed()),
         //# C13.chain_conservation
         forall|fuel: nat| #[trigger] chain_ok(old(self).total(old(r)), old(self).sz(), fats@, sector_id, fuel) && res is Ok
             ==> final(self).total(final(r)) == old(self).total(old(r)),
@@ -250,13 +377,22 @@ map_err(|e| -> (ce: CfbError) ensures ce is Io { CfbError::Io(e) })
         let ghost sz = self.sz();
         let ghost start0 = sector_id;
         let ghost okx = exists|f: nat| chain_ok(total, sz, fats@, start0, f);
-        let ghost f0 = choose|f: nat| chain_ok(total, sz, fats@, start0, f);
+        let ghost f1 = choose|f: nat| chain_ok(total, sz, fats@, start0, f);
+        // minimal fuel: the number of sectors of the chain, at most fats.len() (pigeonhole)
+        let ghost f0 = fat_chain(fats@, start0, f1).unwrap().len();
+        proof { if okx { lemma_chain_min(fats@, start0, f1); lemma_chain_len(fats@, start0, f1); } }
         let ghost all = fat_chain(fats@, start0, f0).unwrap();
         let ghost mut fl: nat = f0;
         let ghost mut done = Seq::<u32>::empty();
 //@@ before /Vec::with_capacity/
             //# C06.alloc_bound_chain_capacity
-            assert(alloc_le(len as int, total.len() as int)) by { reveal(alloc_le); }
+            // reserved only when the declared length fits the longest possible chain: at most (fats.len() + 1) * size bytes, i.e.
+            // at most 1024 bytes per byte of FAT (K = 1024, K0 = 4096)
+            assert(alloc_le(len as int, (fats@.len() + 1) * self.size)) by {
+                reveal(alloc_le);
+                assert(len as int <= (fats@.len() + 1) * self.size) by (nonlinear_arith)
+                    requires len as int / self.size as int <= fats@.len(), self.size > 0, len >= 0;
+            }
 //@@ loop 0
             invariant
                 self.wf(), self.sz() == sz, sz == old(self).sz(),
@@ -269,7 +405,8 @@ map_err(|e| -> (ce: CfbError) ensures ce is Io { CfbError::Io(e) })
                 (*r).io_failed() == (*old(r)).io_failed(),
                 okx ==> done.len() <= all.len() && done == all.take(done.len() as int) && fat_chain(fats@, sector_id, fl) == Some(all.skip(done.len() as int)),
                 okx ==> chain@ == chain_bytes(total, sz, done),
-            decreases fl,
+                okx ==> remaining >= fl,
+            decreases remaining,
 //@@ before /chain\.extend_from_slice/
             let ghost chain0 = chain@;
             let ghost sid = sector_id;
@@ -328,7 +465,7 @@ pub broadcast proof fn axiom_iter_items<I: Iterator>(it: I)
 // TRUSTED: (A-std) `Vec::extend` appends the items of the iterator, in order
 pub assume_specification<T, A: std::alloc::Allocator, I: IntoIterator<Item = T>>[ <Vec<T, A> as Extend<T>>::extend ](v: &mut Vec<T, A>, it: I)
     ensures final(v)@ == old(v)@ + iter_items(it);
-/// little-endian u32 words of a byte string whose length is a multiple of 4
+/// little-endian u32 words of a byte string (complete words only; up to 3 trailing bytes are not a word)
 #[verifier::opaque]
 pub open spec fn le32_words(s: Seq<u8>) -> Seq<u32> { Seq::new(s.len() / 4, |i: int| le32(s.subrange(4 * i, 4 * i + 4)) as u32) }
 
@@ -340,8 +477,6 @@ proof fn lemma_words_len(s: Seq<u8>)
 
 //@@ fn src/utils.rs to_u32 external_body by=to_u32_words ret=r
 //@@ sig
-    requires
-        s@.len() % 4 == 0,
     ensures
         IteratorSpec::remaining(&r) == le32_words(s@),
         IteratorSpec::obeys_prophetic_iter_laws(&r),
@@ -452,9 +587,6 @@ proof fn lemma_signature(h: Seq<u8>)
             assert(buf@.subrange(68, 72) =~= inp.subrange(68, 72));
             assert(buf@.subrange(76, 512) =~= inp.subrange(76, 512));
         }
-//@@ before /let mut difat = Vec::with_capacity/
-        //# C06.alloc_bound_difat_capacity
-        assert(alloc_le(difat_len as int, 109 + inp.len() as int)) by { reveal(alloc_le); }
 //@@ replace /\.map\(\|slice\| u64::from_le_bytes\(slice\.try_into\(\)\.unwrap\(\)\)\)/ from_le_bytes and try_into are outside vstd; utils::read_u64 is the same expression on s[..8] and its contract is discharged by Kani
 .map(|slice: &[u8]| -> (v: u64) requires slice@.len() >= 8 ensures v as int == le64(slice@) { read_u64(slice) })
 //@@ replace /map_err\(CfbError::Io\)/#0of2 Verus does not support a datatype constructor as a function value; eta-expanded
@@ -710,6 +842,47 @@ proof fn witness_requires()
     assert(Seq::new(128, |i: int| 0u8).len() >= 128);                // Directory::from_slice
 }
 
+// ---- the DIFAT walk as an instance of `follow` (for the bound that makes the walk terminate)
+pub open spec fn walk_nxt(data: Seq<u8>, size: int) -> spec_fn(u32) -> u32 { |x: u32| le32_words(sector(data, size, x as int)).last() }
+pub open spec fn walk_valid(data: Seq<u8>, size: int) -> spec_fn(u32) -> bool { |x: u32| sector_in(data, size, x as int) }
+pub open spec fn walk_stop() -> spec_fn(u32) -> bool { |x: u32| x >= 0xFFFF_FFFAu32 }
+/// ids of the DIFAT sectors visited
+pub open spec fn walk_ids(data: Seq<u8>, size: int, next: u32, fuel: nat) -> Option<Seq<u32>> {
+    follow(walk_nxt(data, size), walk_valid(data, size), walk_stop(), next, fuel)
+}
+/// the number of DIFAT sectors is a sufficient fuel
+proof fn lemma_walk_min(data: Seq<u8>, size: int, next: u32, f: nat)
+    requires difat_walk(data, size, next, f) is Some,
+    ensures
+        walk_ids(data, size, next, f) is Some,
+        difat_walk(data, size, next, walk_ids(data, size, next, f).unwrap().len()) == difat_walk(data, size, next, f),
+    decreases f,
+{
+    if next < 0xFFFF_FFFAu32 {
+        let w = le32_words(sector(data, size, next as int));
+        lemma_walk_min(data, size, w.last(), (f - 1) as nat);
+        let t = walk_ids(data, size, w.last(), (f - 1) as nat).unwrap();
+        assert((seq![next] + t).len() == t.len() + 1);
+    }
+}
+/// [MS-CFB]: the DIFAT chain visits every sector of the file at most once, so it has at most data.len() / size sectors
+proof fn lemma_walk_len(data: Seq<u8>, size: int, next: u32, f: nat)
+    requires size > 0, walk_ids(data, size, next, f) is Some,
+    ensures walk_ids(data, size, next, f).unwrap().len() <= data.len() / (size as nat),
+{
+    let ids = walk_ids(data, size, next, f).unwrap();
+    let n = data.len() as int / size;
+    lemma_follow_distinct(walk_nxt(data, size), walk_valid(data, size), walk_stop(), next, f);
+    assert forall|i: int| 0 <= i < ids.len() implies (#[trigger] ids[i] as int) < n by {
+        lemma_follow_suffix(walk_nxt(data, size), walk_valid(data, size), walk_stop(), next, f, i);
+        let id = ids[i] as int;
+        assert(sector_in(data, size, id));
+        assert(id + 1 <= data.len() as int / size) by (nonlinear_arith) requires (id + 1) * size <= data.len(), size > 0;
+    }
+    assert(n >= 0) by (nonlinear_arith) requires n == data.len() as int / size, size > 0;
+    lemma_pigeon(ids, n);
+}
+
 /// a well-formed DIFAT walk does not depend on the fuel
 proof fn lemma_walk_fuel(data: Seq<u8>, size: int, next: u32, f1: nat, f2: nat)
     requires difat_walk(data, size, next, f1) is Some, difat_walk(data, size, next, f2) is Some,
@@ -810,12 +983,12 @@ proof fn lemma_dir_stream_len(nsect: int, ndir: int, size: int)
     assert((nsect * size) % 128 == 0) by (nonlinear_arith) requires size == 512 || size == 4096;
     assert((ndir * size) % 128 == 0) by (nonlinear_arith) requires size == 512 || size == 4096;
 }
-/// chunks of a stream whose length is a multiple of 128 are exactly its 128-byte entries
+/// the exact 128-byte chunks of a stream are its complete 128-byte entries
 proof fn lemma_chunks_128(s: Seq<u8>)
-    requires s.len() % 128 == 0,
     ensures
         chunk_seq(s, 128).len() == s.len() / 128,
         forall|i: int| 0 <= i < s.len() / 128 ==> #[trigger] chunk_seq(s, 128)[i] == s.subrange(128 * i, 128 * i + 128),
+        forall|i: int| 0 <= i < s.len() / 128 ==> (#[trigger] chunk_seq(s, 128)[i]).len() == 128,
 {
     reveal(chunk_seq);
 }
@@ -835,14 +1008,14 @@ proof fn lemma_parse_needs_header(inp: Seq<u8>, fuel: nat)
 
 // ---------------------------------------------------------------- std iterator pieces used by Cfb::new
 #[verifier::external_type_specification] #[verifier::external_body] #[verifier::reject_recursive_types(T)]
-pub struct ExChunks<'a, T: 'a>(std::slice::Chunks<'a, T>);
-/// consecutive chunks of `n` elements, the last one possibly shorter
+pub struct ExChunksExact<'a, T: 'a>(std::slice::ChunksExact<'a, T>);
+/// consecutive complete chunks of `n` elements (a shorter remainder is not a chunk)
 #[verifier::opaque]
 pub open spec fn chunk_seq<T>(s: Seq<T>, n: int) -> Seq<Seq<T>> {
-    Seq::new(((s.len() + n - 1) / n) as nat, |i: int| s.subrange(i * n, if (i + 1) * n <= s.len() { (i + 1) * n } else { s.len() as int }))
+    Seq::new((s.len() as int / n) as nat, |i: int| s.subrange(i * n, (i + 1) * n))
 }
-// TRUSTED: (A-chunks) documented behaviour of `<[T]>::chunks`: panics for n == 0, otherwise yields `chunk_seq(s, n)` in order
-pub assume_specification<T>[ <[T]>::chunks ](s: &[T], n: usize) -> (r: std::slice::Chunks<'_, T>)
+// TRUSTED: (A-chunks) documented behaviour of `<[T]>::chunks_exact`: panics for n == 0, otherwise yields `chunk_seq(s, n)` in order
+pub assume_specification<T>[ <[T]>::chunks_exact ](s: &[T], n: usize) -> (r: std::slice::ChunksExact<'_, T>)
     requires n != 0,
     ensures
         IteratorSpec::obeys_prophetic_iter_laws(&r),
@@ -906,7 +1079,7 @@ pub open spec fn is_chunk(s: Seq<u8>, n: int, c: Seq<u8>) -> bool {
 pub open spec fn chunk_result<T, F: FnMut(&[u8]) -> T>(f: F, cs: Seq<u8>, out: T) -> bool {
     exists|c: &[u8]| c@ == cs && #[trigger] call_ensures(f, (c,), out)
 }
-/// `s.chunks(n).map(f).collect()`: one result per chunk, in order
+/// `s.chunks_exact(n).map(f).collect()`: one result per complete chunk, in order
 fn verif_chunks_map_collect<T, F: FnMut(&[u8]) -> T>(s: &[u8], n: usize, f: F) -> (r: Vec<T>)
     requires
         n != 0,
@@ -915,7 +1088,7 @@ fn verif_chunks_map_collect<T, F: FnMut(&[u8]) -> T>(s: &[u8], n: usize, f: F) -
         r@.len() == chunk_seq(s@, n as int).len(),
         forall|i: int| 0 <= i < r@.len() ==> chunk_result(f, chunk_seq(s@, n as int)[i], #[trigger] r@[i]),
 {
-    s.chunks(n).map(f).collect()
+    s.chunks_exact(n).map(f).collect()
 }
 
 #[verifier::loop_isolation(false)]
@@ -997,7 +1170,8 @@ fn verif_chunks_map_collect<T, F: FnMut(&[u8]) -> T>(s: &[u8], n: usize, f: F) -
         //# C13,C20.new_rejects_invalid_header
         !hdr_valid((*old(reader)).rem()) ==> res is Err,
         //# C13.new_parses_container
-        forall|fuel: nat| #[trigger] cfb_parse((*old(reader)).rem(), fuel) is Some ==> (match res {
+        // (`len` is the length of the input, as every caller passes it; it bounds the DIFAT walk)
+        forall|fuel: nat| #[trigger] cfb_parse((*old(reader)).rem(), fuel) is Some && len as int >= (*old(reader)).rem().len() ==> (match res {
             Ok(c) => {
                 let p = cfb_parse((*old(reader)).rem(), fuel).unwrap();
                 &&& c.wf()
@@ -1016,7 +1190,7 @@ fn verif_chunks_map_collect<T, F: FnMut(&[u8]) -> T>(s: &[u8], n: usize, f: F) -
         let ghost inp = (*reader).rem();
         let ghost io0 = (*reader).io_failed();
         // the container is well formed ([MS-CFB], `cfb_parse`) for some fuel f0: hypothesis of the functional clause
-        let ghost ok = exists|f: nat| cfb_parse(inp, f) is Some;
+        let ghost ok = (exists|f: nat| cfb_parse(inp, f) is Some) && len as int >= inp.len();
         let ghost f0 = choose|f: nat| cfb_parse(inp, f) is Some;
         proof { if ok { lemma_parse_unfold(inp, f0); } }
 //@@ after /let \(h, mut difat\) = [^;]*;/
@@ -1027,11 +1201,17 @@ fn verif_chunks_map_collect<T, F: FnMut(&[u8]) -> T>(s: &[u8], n: usize, f: F) -
         let ghost ids = fat_sector_ids(full);
         let ghost fat = fat_of(data, size, ids);
         let ghost pp = cfb_parse(inp, f0).unwrap();
-        let ghost mut fl: nat = f0;
+        // minimal fuel of the DIFAT walk: its number of sectors, at most data.len() / size <= len / size (pigeonhole)
+        let ghost mut fl: nat = walk_ids(data, size, h.difat_start, f0).unwrap().len();
         proof {
             assert(size == 512 || size == 4096);
             lemma_u32_at_bound(inp, 40);
             lemma_u32_at_bound(inp, 64);
+            if ok {
+                lemma_walk_min(data, size, h.difat_start, f0);
+                lemma_walk_len(data, size, h.difat_start, f0);
+                vstd::arithmetic::div_mod::lemma_div_is_ordered(data.len() as int, len as int, size);
+            }
         }
 //@@ after /let mut sectors = [^;]*;/
         proof { assert(sectors.total(reader) =~= data); }
@@ -1041,7 +1221,8 @@ fn verif_chunks_map_collect<T, F: FnMut(&[u8]) -> T>(s: &[u8], n: usize, f: F) -
                 (*reader).io_failed() == io0,
                 ok ==> sectors.total(reader) == data,
                 ok ==> difat_walk(data, size, sector_id, fl) is Some && difat@ + difat_walk(data, size, sector_id, fl).unwrap() == full,
-            decreases fl,
+                ok ==> remaining >= fl,
+            decreases remaining,
 //@@ before /difat\.extend\(/
             let ghost sid = sector_id;
             let ghost d0 = difat@;
@@ -1075,7 +1256,11 @@ fn verif_chunks_map_collect<T, F: FnMut(&[u8]) -> T>(s: &[u8], n: usize, f: F) -
             }
         }
         //# C06.alloc_bound_fat_capacity
-        assert(alloc_le(h.fat_len as int, inp.len() as int)) by { reveal(alloc_le); }
+        // at most one FAT sector per sector of the file: 4 bytes reserved per `sector_size` bytes of declared input length
+        assert(alloc_le(if (h.fat_len as int) < len as int / size { h.fat_len as int } else { len as int / size }, len as int)) by {
+            reveal(alloc_le);
+            assert(len as int / size <= len as int) by (nonlinear_arith) requires size >= 1, len >= 0;
+        }
 //@@ loop 1
             invariant
                 sectors.wf(), sectors.sz() == size,
@@ -1119,8 +1304,8 @@ fn verif_chunks_map_collect<T, F: FnMut(&[u8]) -> T>(s: &[u8], n: usize, f: F) -
                 lemma_chain_bytes_len(data, size, fat_chain(fat, h.dir_start, f0).unwrap());
                 lemma_dir_stream_len(fat_chain(fat, h.dir_start, f0).unwrap().len() as int, hdr_num_dir_sectors(inp), size);
                 assert(dstream.len() % 128 == 0);
-                lemma_chunks_128(dstream);
             }
+            lemma_chunks_128(dstream);
         }
 //@@ before /if dirs\.is_empty\(\)/
         proof {
@@ -1164,7 +1349,7 @@ fn verif_chunks_map_collect<T, F: FnMut(&[u8]) -> T>(s: &[u8], n: usize, f: F) -
 Header::from_reader(reader)
 //@@ replace /for id in difat\.into_iter\(\)\.filter\(\|id\| ([^)]*)\)/ vstd cannot reason about Filter over a closure created in a generic fn; the iterator is materialised by the verified wrapper (same items, same order; predicate pure); closure text verbatim, annotated
 for id in it: verif_filter_collect(difat, |id: &u32| -> (b: bool) ensures b == (\g<1>) { \g<1> })
-//@@ replace /dirs\s*\.chunks\(([^)]*)\)\s*\.map\(\|c\| ([^;]*)\)\s*\.collect::<Vec<_>>\(\)/ vstd cannot reason about Map over a closure created in a generic fn; expression moved into the verified wrapper; closure text verbatim, annotated with the contract of Directory::from_slice
+//@@ replace /dirs\s*\.chunks_exact\(([^)]*)\)\s*\.map\(\|c\| ([^;]*)\)\s*\.collect::<Vec<_>>\(\)/ vstd cannot reason about Map over a closure created in a generic fn; expression moved into the verified wrapper; closure text verbatim, annotated with the contract of Directory::from_slice
 verif_chunks_map_collect(&dirs, \g<1>, |c: &[u8]| -> (d: Directory) requires c@.len() >= 128 ensures d.ent() == dir_ent(c@.subrange(0, 128), h.sector_size as int) { \g<2> })
 //@@ end
 //@@ endimpl
